@@ -81,7 +81,7 @@ def gen_history(rng, nops=None, cfg=None, long_mode=False, weights_override=None
 
     def enq_item(blank_ok=True):
         e = {"id": rng.choice(ids), "route": rng.choice(routes), "target": rng.choice(targets),
-             "recv": None, "next": None, "body": 0, "hdr": rng.choice([0, 0, 1, 2]), "trace": rng.choice([0, 0, 1])}
+             "recv": None, "next": None, "body": 0, "hdr": rng.choice([0, 0, 1, 2, 3, 4, 5, 6, 7, 8, 9]), "trace": rng.choice([0, 0, 1, 2, 3, 4, 8])}
         body_ctr[0] += 1
         e["body"] = body_ctr[0]
         r = rng.random()
